@@ -146,18 +146,18 @@ R.contract(
     modifies=["items(%s)" % D, "items(%s)" % DS],
 )
 R.loop(ACO, 0, invariants=["all(not %s for j in range(_i))" % taken("long_aliases[j]")], modifies=[],
-       fingerprint="long_alias in long_aliases")
+       fingerprint=" in long_aliases")
 R.loop(ACO, 1, invariants=["all(not %s for j in range(_i))" % taken("short_aliases[j]")], modifies=[],
-       fingerprint="short_alias in short_aliases")
+       fingerprint=" in short_aliases")
 INS_LONG = ["long_name in %s and %s[long_name] is %s" % (D, D, CO),
             "all(long_aliases[j] in %s and %s[long_aliases[j]] is %s for j in range(_i))" % (D, D, CO),
             "same_except(%s, long_name, first(long_aliases, _i))" % D]
-R.loop(ACO, 2, invariants=INS_LONG, modifies=["items(%s)" % D], fingerprint="long_alias in long_aliases")
+R.loop(ACO, 2, invariants=INS_LONG, modifies=["items(%s)" % D], fingerprint=" in long_aliases")
 INS_SHORT = ["all(long_aliases[j] in %s and %s[long_aliases[j]] is %s for j in range(len(long_aliases)))" % (D, D, CO),
              "all(short_aliases[j] in %s and %s[short_aliases[j]] is %s for j in range(_i))" % (DS, DS, CO),
              "same_except(%s, short_name, first(short_aliases, _i))" % DS,
              "implies(short_name is not None and len(short_name) > 0, short_name in %s and %s[short_name] is %s)" % (DS, DS, CO)]
-R.loop(ACO, 3, invariants=INS_SHORT, modifies=["items(%s)" % DS], fingerprint="short_alias in short_aliases")
+R.loop(ACO, 3, invariants=INS_SHORT, modifies=["items(%s)" % DS], fingerprint=" in short_aliases")
 
 
 # ---- queries that hand out a table: a NEW dict every time, the builder's own tables stay as they are --------------------
